@@ -112,6 +112,10 @@ def make_renamings(r: random.Random, names: list[str]) -> list[tuple[str, dict[s
 		return len(set(vals)) == len(vals) and not (set(vals) & RESERVED) and not (set(vals) & set(names) - {v for k, v in m.items() if k == v}) and all(v.isidentifier() for v in vals)
 	out = []
 	def add(label: str, m: dict[str, str]) -> None:
+		# a renaming keeps the access class a name spells: __private stays __private, _protected stays _protected, public stays public
+		# (a name that starts AND ends with two underscores is a public 'dunder' name: a private name never gets such a spelling)
+		m = {k: ('__' + v.lstrip('_') if k.startswith('__') else '_' + v.lstrip('_') if k.startswith('_') else v) for k, v in m.items()}
+		m = {k: (v + 'z' if k.startswith('__') and v.endswith('__') else v) for k, v in m.items()}
 		if ok(m):
 			out.append((label, m))
 	add('infix', {n: f'{n}_vq7' for n in names})
@@ -132,6 +136,8 @@ def make_renamings(r: random.Random, names: list[str]) -> list[tuple[str, dict[s
 		if max(len(v) for v in m.values()) < 200:
 			add(label, m)
 			add(label.replace('suffix', 'prefix'), {k: v[::-1] if not v[::-1][0].isdigit() else 'p' + v[::-1] for k, v in m.items()})
+	# private / protected names with further double underscores inside and at the end
+	add('inner-dunder', {n: (f'{n}__key' if i % 2 else f'{n}__x__y') if n.startswith('_') else f'{n}_k' for i, n in enumerate(names)})
 	add('double-underscore', {n: (f'zq__{n}' if i % 2 else f'{n}__init__') for i, n in enumerate(names)})
 	add('self-cls-super', {n: ['self', 'cls', 'super', 'selfself'][i % 4] + n for i, n in enumerate(names)})
 	tags = ['name', 'var', 'block', 'class_def', 'function_def', 'getattr', 'funccall', 'assign', 'file_input', 'typedparam']
@@ -268,11 +274,60 @@ def classify(v: dict) -> str | None:
 	return None
 
 
+SPECIAL2 = '''from typing import ClassVar
+
+
+limit: str = 'top'
+scale: int = 2
+
+
+class Box:
+	limit: ClassVar[int] = 5
+	scale: ClassVar[float] = 1.5
+	__secret: int
+	_shade: str
+	plain: float
+
+	def __init__(self) -> None:
+		self.__secret = 1
+		self._shade = 's'
+		self.plain = 0.5
+
+	def check(self) -> int:
+		v = limit
+		w = scale
+		return len(v) + w
+
+	def __calc(self) -> int:
+		return self.__secret + 1
+
+	def _hint(self) -> str:
+		return self._shade
+
+	def total(self) -> int:
+		return self.__calc() + len(self._hint()) + Box.limit
+
+	class __Hidden:
+		pass
+
+	class _Inner:
+		pass
+
+
+def use_box() -> int:
+	b = Box()
+	top = limit
+	return b.total() + b.check() + len(top) + scale
+'''
+
+
 def shard(ctx: Ctx, acc: Acc) -> None:
 	from vf.gen.typed import TypedGen
 	n = N_PROGRAMS[ctx.tier]
 	if ctx.shard == 0:
 		check_program(acc, {'source': SPECIAL}, ctx.rng('special'))
+	if ctx.shard == 1 % ctx.nshards:
+		check_program(acc, {'source': SPECIAL2}, ctx.rng('special2'))
 	for i in range(n):
 		if not ctx.mine(i):
 			continue
